@@ -388,3 +388,9 @@ def pre_encoded_url(url_str):
     """encoded=True: the parts are stored verbatim (C07)"""
     scheme, netloc, path, query, fragment = spec_parse.split_url(url_str)
     return U(scheme, netloc, path, query, fragment)
+
+
+def cache_netloc(u):
+    """fills four memo entries; returns nothing (the entries are checked against MEMO_SPECS)"""
+    spec_parse.split_netloc(u.netloc)
+    return None
